@@ -559,7 +559,7 @@ def string_features(node, out):
             string_features(a, out)
 
 
-def populate(ds, rng, base_us, long_range=False, odd_events=False):
+def populate(ds, rng, base_us, long_range=False, odd_events=False, big=False):
     """Three populated buckets for query workloads. long_range: two of them also hold most of a year of long events
     (6-24 h each, about a third of the time covered), so that windows of weeks and months have something to cut."""
     from .gen import mk_event
@@ -603,6 +603,17 @@ def populate(ds, rng, base_us, long_range=False, odd_events=False):
                 p3 += dur + rng.choice([0, hour, 12 * hour, 2 * day, 3 * day]) + rng.randrange(0, 3600) * 10**6
             lst[:0] = old
         lo = base_us - 301 * day
+    if big:
+        # a bucket beyond any likely page / batch size in which many events share their start instant with a
+        # neighbour: whatever a reader does in pieces has to put the pieces together again without losing one
+        p4 = base_us - 3 * 3600 * 10**6
+        old = []
+        for i in range(2600 + rng.randrange(0, 200)):
+            if rng.random() >= 0.45:
+                p4 += rng.choice([1000, 10**6, 10**6, 2 * 10**6, 5 * 10**6])
+            old.append(dict(ts=p4, dur=rng.choice([0, 1000, 10**6, 3 * 10**6, 10 * 10**6]), data={"app": rng.choice(apps), "title": rng.choice(titles), "n": i}))
+        w[:0] = old
+        lo = min(lo, base_us - 3 * 3600 * 10**6 - 10 * 10**6)
     for bid, evs in zip(BUCKETS, (w, a, web)):
         b = ds.create_bucket(bid, type="t", client="c", hostname="host")
         b.insert([mk_event(s) for s in evs])
